@@ -93,47 +93,6 @@ Theorem C03_flatbool_ext_from_bool_sound : forall op dst src w st s t,
   gfb (fb_cast op dst src false true w st) (upd s dst (b2z (t src))) t.
 Proof. exact fb_cast_from_bool_sound. Qed.
 
-(* C04.  Inclusion test: whenever it answers yes, every pair of stores of the left operand is
-   a pair of stores of the right one.  fb_inv b is the representation invariant "the set of
-   unchanged variables is the all-variables set only together with a bottom memory"; it holds
-   for every value that a history builds (C04_flatbool_invariant_of_histories), so the
-   history-level statement has no side condition. *)
-Theorem C04_flatbool_leq_sound : forall a b s t,
-  fb_leq a b = true -> fb_inv b -> gfb a s t -> gfb b s t.
-Proof. exact fb_leq_sound. Qed.
-Theorem C04_flatbool_invariant_of_histories : forall isb h rs,
-  (forall r, fb_inv (frget rs r)) -> forall r, fb_inv (frget (frun isb rs h) r).
-Proof. exact frun_inv. Qed.
-Theorem C04_flatbool_history_leq_sound : forall isb h n a b s t,
-  fhist_ok isb (repeat fb_top n) h ->
-  fb_leq (frget (frun isb (repeat fb_top n) h) a) (frget (frun isb (repeat fb_top n) h) b) = true ->
-  fcget (fold_left (fcstep isb) h (repeat (fun _ _ => True) n)) a s t ->
-  gfb (frget (frun isb (repeat fb_top n) h) b) s t.
-Proof. exact fhistory_leq_sound. Qed.
-Theorem C04_flatbool_join_upper_bound : forall a b s t,
-  gfb a s t \/ gfb b s t -> gfb (fb_join a b) s t.
-Proof. exact fb_join_sound. Qed.
-Theorem C04_flatbool_meet_lower_bound : forall a b s t,
-  gfb a s t -> gfb b s t -> gfb (fb_meet a b) s t.
-Proof. exact fb_meet_sound. Qed.
-Theorem C04_flatbool_widening_upper_bound : forall a b s t,
-  gfb a s t \/ gfb b s t -> gfb (fb_widen a b) s t.
-Proof. exact fb_widen_sound. Qed.
-Theorem C04_flatbool_narrowing_lower_bound : forall a b s t,
-  gfb a s t -> gfb b s t -> gfb (fb_narrow a b) s t.
-Proof. exact fb_narrow_sound. Qed.
-
-(* C12, lifting clause.  On numerical code (any history of the interval-domain language
-   without casts that involve a Boolean, empty assume / project, meet and narrowing: lift_ok)
-   the numerical component of the product is exactly the value the bare interval-domain
-   model computes, bottom is reported alike, and at(v) is the same interval. *)
-Theorem C12_flatbool_lifting_numerical : forall isb h n r,
-  Forall lift_ok h ->
-  let st := frget (frun isb (repeat fb_top n) (map lift h)) r in
-  let e := rget (hrun (repeat e_top n) h) r in
-  p_snd (f_prod st) = e /\ fb_is_bot st = e_is_bot e /\ forall v, fb_at st v = inorm (e_at e v).
-Proof. exact lifting_numerical. Qed.
-
 (* non-vacuity and the repaired behaviour (bool-2): b0 := (x <= 0); x := 5; b1 := (x <= 10);
    assume(b0) is NOT bottom and keeps x = 5 (the constraint x <= 0 remembered for b0 is not
    revived when x re-enters the unchanged variables); without the assignment, assume(b0)
@@ -178,11 +137,3 @@ Print Assumptions C03_flatbool_assume_sound.
 Print Assumptions C03_flatbool_forget_sound.
 Print Assumptions C03_flatbool_trunc_to_bool_sound.
 Print Assumptions C03_flatbool_ext_from_bool_sound.
-Print Assumptions C04_flatbool_leq_sound.
-Print Assumptions C04_flatbool_invariant_of_histories.
-Print Assumptions C04_flatbool_history_leq_sound.
-Print Assumptions C04_flatbool_join_upper_bound.
-Print Assumptions C04_flatbool_meet_lower_bound.
-Print Assumptions C04_flatbool_widening_upper_bound.
-Print Assumptions C04_flatbool_narrowing_lower_bound.
-Print Assumptions C12_flatbool_lifting_numerical.
